@@ -439,4 +439,6 @@ def run(eng: Engine, ck: Check):
     from . import defs as _d08
     _d08.enum_members_distinct(eng, ck, 'R-C08-GATE', [('BlockingFlag', 'user/model.py'), ('DirectoryShareMode', 'shares/model.py'), ('_RequestFlag', TM), ('AbortReason', 'transfer/model.py')], 'uploads are refused to users blocked for UPLOADS, listings to users blocked for SHARES; a directory is FRIENDS or USERS or EVERYONE')
     _d08.job_raises_nothing_typed(eng, ck, 'R-C08-REEVAL', TM, 'TransferManager._management_job', 'the job is what re-evaluates uploads after a shares / block / friends change')
+    from .c07 import innermost_rules
+    innermost_rules(eng, ck, 'R-C08-GATE')
     _d08.lock_wrapper_forwards_arguments(eng, ck, 'R-C08-REEVAL', 'an upload aborted on the user\'s request is recognised by its REQUESTED reason, which abort() receives by keyword')
